@@ -98,10 +98,29 @@ class KeyCollector:
                     if isinstance(b, str):
                         self.adds.append((b, n))
 
+    def residual(self, test):
+        """`a and b` with a known to be True is the test b (and dually for `or` with a known False operand)."""
+        if isinstance(test, ast.BoolOp):
+            keep = []
+            for v in test.values:
+                c = self.val(v)
+                if isinstance(test.op, ast.And) and c is True:
+                    continue
+                if isinstance(test.op, ast.Or) and c is False:
+                    continue
+                keep.append(v)
+            if len(keep) == 1:
+                return self.residual(keep[0])
+        return test
+
     def stmt(self, s):
         if isinstance(s, ast.If):
             c = self.val(s.test)
             self.scan(s.test)
+            if c is None:
+                r = self.residual(s.test)
+                if r is not s.test:
+                    s = ast.If(test=r, body=s.body, orelse=s.orelse)
             if c is True:
                 self.block(s.body)
             elif c is False:
@@ -151,6 +170,21 @@ class KeyCollector:
             if isinstance(cur, list) and isinstance(v, list):
                 self.env[s.target.id] = cur + v
             self.scan(s.value)
+            return
+        if isinstance(s, ast.Expr) and isinstance(s.value, ast.Call) and isinstance(s.value.func, ast.Attribute) and isinstance(s.value.func.value, ast.Name) \
+                and s.value.func.attr in ('append', 'extend') and len(s.value.args) == 1 and not s.value.keywords:
+            # lst.append(x) / lst.extend([x, y]) are lst += [x] / lst += [x, y]
+            arg = s.value.args[0]
+            v = self.val(arg)
+            if s.value.func.attr == 'append':
+                v = [v] if isinstance(v, str) else None
+            cur = self.env.get(s.value.func.value.id)
+            if isinstance(v, list):
+                for k in v:
+                    self.list_adds.append((s.value.func.value.id, k, list(self.guards), s))
+                if isinstance(cur, list):
+                    self.env[s.value.func.value.id] = cur + v
+            self.scan(arg)
             return
         if isinstance(s, ast.Expr) and isinstance(s.value, (ast.DictComp, ast.ListComp)):
             self.comp(s.value)
